@@ -52,7 +52,7 @@ pub fn extra_number_words(code: &str) -> &'static [&'static str] {
         "pt" => &["segundo", "segundos", "bilhão", "bilhões", "biliões", "quatorze", "dezesseis", "uma", "duas", "meia"],
         "it" => &["secondo", "secondi", "centesimi", "un", "una", "mezzo", "tré", "centuno", "bilione", "bilioni"],
         "de" => &["zwo", "eine", "einen", "dreissig", "billion", "milliarden", "hundertste", "zweite", "siebte"],
-        "nl" => &["één", "biljoen", "miljardste", "honderdste", "achtste", "derde"],
+        "nl" => &["één", "biljoen", "miljardste", "honderdste", "achtste", "derde", "drieenzeventig", "drieentwintig", "drieendertigste"],
         _ => &[],
     }
 }
